@@ -38,6 +38,23 @@ type Prog struct {
 	Cuts []bool          `json:"cuts"` // block ends after event i (cyclic)
 	Gaps []int           `json:"gaps"` // distance between block numbers (cyclic)
 	Disk bool            `json:"disk"` // on-disk Badger, closed and re-opened at the restart
+
+	Markers []bool  `json:"markers,omitempty"` // empty progress-marker BlockLogs after block j (cyclic), as the execution client emits them
+	Stale   []Stale `json:"stale,omitempty"`   // deliveries of blocks that are not newer than the last processed one
+}
+
+// Stale is the delivery of a BlockLogs whose number is not above the last processed block.
+type Stale struct {
+	After   int    `json:"after"`   // delivered after stream position After (mod stream length)
+	Back    int    `json:"back"`    // 0: the marker's own number, 1: marker-1, n >= 2: the number of the (n-1)-th stream block before
+	Kind    string `json:"kind"`    // empty (a re-delivered progress marker) | same (the events that block really had) | other (events of another block)
+	Restart bool   `json:"restart"` // afterwards: restart and resume from last processed + 1
+}
+
+func genStale(t *rapid.T) Stale {
+	return Stale{After: rapid.IntRange(0, 15).Draw(t, "after"), Back: rapid.IntRange(0, 4).Draw(t, "back"),
+		Kind:    rapid.SampledFrom([]string{"empty", "empty", "same", "other"}).Draw(t, "kind"),
+		Restart: rapid.Bool().Draw(t, "restart")}
 }
 
 // gen: on-disk histories cost two Badger opens (64 MB arena each) per fault run, so they are drawn in
@@ -54,6 +71,8 @@ func gen(t *rapid.T) Prog {
 	p := Prog{Sc: regsim.GenScenario(t, regsim.Bias{MaxEvents: max, OwnHeavy: true}), Disk: disk}
 	p.Cuts = rapid.SliceOfN(rapid.Bool(), 1, 8).Draw(t, "cuts")
 	p.Gaps = rapid.SliceOfN(rapid.IntRange(1, 3), 1, 3).Draw(t, "gaps")
+	p.Markers = rapid.SliceOfN(rapid.Bool(), 0, 5).Draw(t, "markers")
+	p.Stale = rapid.SliceOfN(rapid.Custom(genStale), 0, 5).Draw(t, "stale")
 	return p
 }
 
@@ -152,11 +171,21 @@ func run(p Prog) *prog.Result {
 		}
 	}
 	sc.Events = evs
+	classes0 := false
 	_, blocks := regsim.Cut(sc, p.Cuts, p.Gaps)
 	if len(blocks) == 0 {
 		return res
 	}
+	blocks = regsim.WithMarkers(blocks, p.Markers)
+	for _, b := range blocks {
+		if len(b.Events) == 0 {
+			classes0 = true
+		}
+	}
 	classes := map[string]bool{}
+	if classes0 {
+		classes["empty-progress-marker-block"] = true
+	}
 	if p.Disk {
 		classes["disk"] = true
 	}
@@ -212,9 +241,30 @@ func run(p Prog) *prog.Result {
 		return fail(res, "reference-run:"+cat, "the uninterrupted run already differs from the registration rules (C11):\n%s\n%s", d, describe(sc, blocks))
 	}
 
+	// ---- stale deliveries in the middle of the stream ------------------------------------------
+	if len(p.Stale) > 0 {
+		sig, msg, cls := staleRun(p, sc, blocks, ref)
+		for _, c := range cls {
+			classes[c] = true
+		}
+		if sig == "discard" {
+			st.Destroy()
+			res.Discard = true
+			return res
+		}
+		if sig != "" {
+			st.Destroy()
+			return fail(res, sig, "%s\nblocks:\n%s", msg, describe(sc, blocks))
+		}
+	}
+
 	// ---- a block that is not newer than the last processed one is refused ------------------
 	before := in.Count()
 	for bi, b := range blocks {
+		if _, err, _ := env.Deliver(regsim.Logs(sc, regsim.Block{Number: b.Number})); !errors.Is(err, eventhandler.ErrInferiorBlock) {
+			st.Destroy()
+			return fail(res, "inferior-block-accepted:empty", "delivering an empty BlockLogs (progress marker) for number %d while the last processed block is %d returned %v, want ErrInferiorBlock", b.Number, blocks[len(blocks)-1].Number, err)
+		}
 		stale := regsim.Logs(sc, b)
 		_, err, _ := env.Deliver(stale)
 		if !errors.Is(err, eventhandler.ErrInferiorBlock) {
@@ -379,6 +429,138 @@ func oneFault(p Prog, sc regsim.Scenario, blocks []regsim.Block, ref final, at i
 	}
 	s, d := compare(ref, got)
 	return s, d, cls
+}
+
+// staleRun delivers the stream on a fresh database with the program's stale deliveries interleaved. A
+// stale delivery must be refused (HandleBlockEventsStream returns ErrInferiorBlock) without a single
+// mutating call, the last-processed marker must never decrease, and the final state must equal the
+// uninterrupted run's.
+func staleRun(p Prog, sc regsim.Scenario, blocks []regsim.Block, ref final) (sig, msg string, cls []string) {
+	st, err := regsim.OpenStore(p.Disk)
+	if err != nil {
+		return "discard", "", nil
+	}
+	defer st.Destroy()
+	in := faultdb.NewInjector()
+	env, err := regsim.Boot(st, in)
+	if err != nil {
+		return "boot-error", fmt.Sprintf("boot on an empty database failed: %v", err), nil
+	}
+	marker := func() (uint64, error) {
+		from, err := env.ResumeFrom()
+		if err != nil || from == 0 {
+			return 0, err
+		}
+		return from - 1, nil
+	}
+	eventsOf := func(number uint64, same bool) []int {
+		var older, other []int
+		for _, b := range blocks {
+			if len(b.Events) == 0 {
+				continue
+			}
+			if b.Number == number && same {
+				return b.Events
+			}
+			if b.Number < number {
+				older = b.Events
+			}
+			if b.Number != number {
+				other = b.Events
+			}
+		}
+		if same {
+			return older
+		}
+		return other
+	}
+	high := uint64(0)
+	for pos := 0; pos < len(blocks); pos++ {
+		b := blocks[pos]
+		if _, err, _ := env.Deliver(regsim.Logs(sc, b)); err != nil {
+			return "handler-error", fmt.Sprintf("stream with stale deliveries: block %d (number %d) returned an error: %v", pos, b.Number, err), cls
+		}
+		if mk, err := marker(); err != nil || mk != b.Number || mk < high {
+			return "marker-wrong", fmt.Sprintf("after block %d (number %d) the last processed block reads %d (err %v), highest so far %d", pos, b.Number, mk, err, high), cls
+		}
+		high = b.Number
+		for _, sd := range p.Stale {
+			if sd.After%len(blocks) != pos {
+				continue
+			}
+			n := b.Number
+			switch {
+			case sd.Back == 1 && n > 1:
+				n--
+			case sd.Back >= 2:
+				k := pos - (sd.Back - 1)
+				if k < 0 {
+					k = 0
+				}
+				n = blocks[k].Number
+			}
+			sb := regsim.Block{Number: n}
+			if sd.Kind != "empty" {
+				sb.Events = eventsOf(n, sd.Kind == "same")
+			}
+			kind := sd.Kind
+			if len(sb.Events) == 0 {
+				kind = "empty"
+			}
+			age := "older"
+			if n == b.Number {
+				age = "at-marker"
+			} else if n == b.Number-1 {
+				age = "marker-1"
+			}
+			cls = append(cls, "stale:"+kind+":"+age)
+			what := fmt.Sprintf("stale delivery after block %d: BlockLogs number %d (%s, %d logs) while the last processed block is %d", pos, n, kind, len(sb.Events), b.Number)
+			before := in.Count()
+			_, err, _ := env.Deliver(regsim.Logs(sc, sb))
+			mk, merr := marker()
+			switch {
+			case merr != nil:
+				return "read-error", merr.Error(), cls
+			case mk < b.Number:
+				return "marker-regressed:" + kind, fmt.Sprintf("%s: the last processed block went BACK to %d (delivery returned %v)", what, mk, err), cls
+			case mk != b.Number:
+				return "marker-moved:" + kind, fmt.Sprintf("%s: the last processed block is now %d (delivery returned %v)", what, mk, err), cls
+			case !errors.Is(err, eventhandler.ErrInferiorBlock):
+				return "inferior-block-accepted:" + kind, fmt.Sprintf("%s: returned %v, want ErrInferiorBlock", what, err), cls
+			case in.Count() != before:
+				return "inferior-block-wrote:" + kind, fmt.Sprintf("%s: the refused delivery made %d mutating calls", what, in.Count()-before), cls
+			}
+			if sd.Restart {
+				// the failed stream ends the process; the next one resumes from last processed + 1
+				cls = append(cls, "stale:then-restart")
+				if err := st.Reopen(); err != nil {
+					return "discard", "", cls
+				}
+				if env, err = regsim.Boot(st, in); err != nil {
+					return "restart-boot-error", fmt.Sprintf("%s: the node does not start afterwards: %v", what, err), cls
+				}
+				from, err := env.ResumeFrom()
+				if err != nil {
+					return "restart-boot-error", err.Error(), cls
+				}
+				for k := 0; k <= pos; k++ { // what the execution client would deliver again from there
+					if blocks[k].Number >= from {
+						if _, err, _ := env.Deliver(regsim.Logs(sc, blocks[k])); err != nil {
+							return "resume-error", fmt.Sprintf("%s: after the restart (resuming from %d) block %d fails: %v", what, from, k, err), cls
+						}
+					}
+				}
+			}
+		}
+	}
+	got, err := readFinal(st)
+	if err != nil {
+		return "read-error", err.Error(), cls
+	}
+	if s, d := compare(ref, got); s != "" {
+		return "stale-run:" + s, "the stream with stale deliveries ends in another state than the plain stream: " + d, cls
+	}
+	return "", "", cls
 }
 
 func TestPropCrashAtomicity(t *testing.T) { prog.Check(t, "C12", testName, gen, run) }
